@@ -8,6 +8,7 @@
 //!   nsim plan <ID> --seed N --index I [--tier T]        print the plan of one case
 //!   nsim selftest determinism <ID> [--cases N]
 
+mod aexec;
 mod checks;
 mod fmt;
 mod genr;
